@@ -180,7 +180,11 @@ func buildCanonicalURI(u *url.URL) string {
 	var uri string
 
 	if len(u.Opaque) > 0 {
-		uri = "/" + strings.Join(strings.Split(u.Opaque, "/")[3:], "/")
+		// the opaque part is expected to be "//host/path", but it comes from
+		// the request line and could be anything
+		if parts := strings.Split(u.Opaque, "/"); len(parts) > 3 {
+			uri = "/" + strings.Join(parts[3:], "/")
+		}
 	} else {
 		uri = u.EscapedPath()
 	}
